@@ -146,7 +146,7 @@ def main(tier):
         "samples": samples,
         "explanation": "P3 is a proof for all keys at once: the decoded coefficients are symbols, not samples; extremal patterns are members of the symbol ranges",
     }
-    return rep.finish("proof", cov, ["abstract interpreter soundness"])
+    return rep.finish("other", cov, ["abstract interpreter soundness", "the byte round trip is proved; behavioural equality of a re-deserialised generated key is shown only through P2-P4 and C11 D6 (equal precompute maps modulo q)"])
 
 
 if __name__ == "__main__":
